@@ -332,6 +332,10 @@ def run(ctx, env):
     # R6.9
     ctx.rule("R6.9", "templates are learned in stream order: every function that writes a template cache is reached from parse_bytes only through the per-flowset / per-set decode call of its protocol (FlowSet::parse), i.e. one flowset at a time at the repetition's cursor - no look-ahead pass installs a later definition before an earlier data flowset is decoded")
     rule_learned_in_stream_order(ctx, prog, ca, "R6.9")
+    # R6.10
+    ctx.rule("R6.10", "packets of disallowed versions leave the caches untouched: every call of the V9 / IPFIX parser (the only functions through which a cache is written, R6.9) is reachable only through the true edge of the single allowed_versions gate of its dispatcher (shared with C12 R12.1)")
+    from . import c12 as _c12
+    _c12.gate_dominates_rule(ctx, prog, an, "R6.10")
     # R6.3
     for r in ca.reads:
         b, t, c = r["body"], r["term"], r["callee"]
